@@ -31,6 +31,8 @@ where
 }
 
 fn check_equality_bigdecimal_ref(lhs: BigDecimalRef, rhs: BigDecimalRef) -> bool {
+    verif_probe_if!(lhs.sign() == Sign::NoSign && rhs.sign() == Sign::NoSign, Eq_BothZero);
+    verif_probe_if!(lhs.sign() != rhs.sign(), Eq_SignDiffer);
     match (lhs.sign(), rhs.sign()) {
         // both zero
         (Sign::NoSign, Sign::NoSign) => return true,
@@ -45,6 +47,7 @@ fn check_equality_bigdecimal_ref(lhs: BigDecimalRef, rhs: BigDecimalRef) -> bool
     let trailing_zero_count;
     match arithmetic::checked_diff(lhs.scale, rhs.scale) {
         (Ordering::Equal, _) => {
+            verif_probe!(Eq_SameScale);
             return lhs.digits == rhs.digits;
         }
         (Ordering::Greater, Some(scale_diff)) => {
@@ -60,6 +63,7 @@ fn check_equality_bigdecimal_ref(lhs: BigDecimalRef, rhs: BigDecimalRef) -> bool
         _ => {
             // all other cases imply overflow in difference of scale,
             // numbers must not be equal
+            verif_probe!(Eq_ScaleOverflow);
             return false;
         }
     }
@@ -69,6 +73,7 @@ fn check_equality_bigdecimal_ref(lhs: BigDecimalRef, rhs: BigDecimalRef) -> bool
     // test if unscaled_int is guaranteed to be less than
     // scaled_int*10^trailing_zero_count based on highest bit
     if highest_bit_lessthan_scaled(unscaled_int, scaled_int, trailing_zero_count) {
+        verif_probe!(Eq_BitPrefilter);
         return false;
     }
 
@@ -80,6 +85,7 @@ fn check_equality_bigdecimal_ref(lhs: BigDecimalRef, rhs: BigDecimalRef) -> bool
         let mut b_digits = scaled_int.iter_u32_digits();
 
         let mut carry = 0;
+        verif_probe!(Eq_WordLoop);
         loop {
             match (a_digits.next(), b_digits.next()) {
                 (Some(next_a), Some(next_b)) => {
@@ -112,10 +118,12 @@ fn check_equality_bigdecimal_ref(lhs: BigDecimalRef, rhs: BigDecimalRef) -> bool
         }
 
         // we broke out of loop due to overflow - compare via allocation
+        verif_probe!(Eq_WordLoopOverflow);
         let scaled_int = scaled_int * pow;
         return &scaled_int == unscaled_int;
     }
 
+    verif_probe!(Eq_DigitWise);
     let trailing_zero_count = trailing_zero_count.to_usize().unwrap();
     let unscaled_digits = unscaled_int.to_radix_le(10);
 
@@ -190,10 +198,12 @@ impl Ord for BigDecimalRef<'_> {
 
         let scmp = self.sign().cmp(&other.sign());
         if scmp != Ordering::Equal {
+            verif_probe!(Cmp_SignDecided);
             return scmp;
         }
 
         if self.sign() == Sign::NoSign {
+            verif_probe!(Cmp_Zero);
             return Ordering::Equal;
         }
 
@@ -210,6 +220,7 @@ impl Ord for BigDecimalRef<'_> {
                 // (unless we have a 2^64 (i.e. ~16 exabyte) long number
 
                 // larger scale means smaller number, reverse this ordering
+                verif_probe!(Cmp_ScaleOverflow);
                 res.reverse()
             }
         };
@@ -229,11 +240,13 @@ fn compare_scaled_biguints(a: &BigUint, b: &BigUint, scale_diff: u64) -> Orderin
     use Ordering::*;
 
     if scale_diff == 0 {
+        verif_probe!(Cmp_SameScale);
         return a.cmp(b);
     }
 
     // check if highest bit of a is less than b * 10^scale_diff
     if highest_bit_lessthan_scaled(a, b, scale_diff) {
+        verif_probe!(Cmp_BitPrefilter);
         return Ordering::Less;
     }
 
@@ -241,6 +254,7 @@ fn compare_scaled_biguints(a: &BigUint, b: &BigUint, scale_diff: u64) -> Orderin
     if let Some(result) = compare_scalar_biguints(a, b, scale_diff) {
         return result;
     }
+    verif_probe!(Cmp_DigitCount);
 
     let a_digit_count = count_decimal_digits_uint(a);
     let b_digit_count = count_decimal_digits_uint(b);
@@ -250,6 +264,7 @@ fn compare_scaled_biguints(a: &BigUint, b: &BigUint, scale_diff: u64) -> Orderin
         return digit_count_cmp;
     }
 
+    verif_probe!(Cmp_DigitWise);
     let a_digits = a.to_radix_le(10);
     let b_digits = b.to_radix_le(10);
 
@@ -291,6 +306,9 @@ fn compare_scaled_biguints(a: &BigUint, b: &BigUint, scale_diff: u64) -> Orderin
 /// Try fitting biguints into primitive integers, using those for ordering if possible
 fn compare_scalar_biguints(a: &BigUint, b: &BigUint, scale_diff: u64) -> Option<Ordering> {
     let scale_diff = scale_diff.to_usize()?;
+    verif_probe_if!(compare_scaled_uints::<u64>(a, b, scale_diff).is_some(), Cmp_U64);
+    verif_probe_if!(compare_scaled_uints::<u64>(a, b, scale_diff).is_none()
+                    && compare_scaled_uints::<u128>(a, b, scale_diff).is_some(), Cmp_U128);
 
     // try u64, then u128
     compare_scaled_uints::<u64>(a, b, scale_diff)
